@@ -465,3 +465,25 @@ func VH_nested(opclass int, second int) {
 		checkResult("nested-neg-", neg, specUnary(token.MINUS, mid), hvCountStderr())
 	}
 }
+
+// VH_concatTwice (C02/C15): two concatenations in one process. What + splices for a number
+// depends on that number alone — not on which numbers were spliced before (the two may be equal
+// as numbers and still print differently: 0 and -0).
+func VH_concatTwice(side int) {
+	x, y := verifNondetFloat(), verifNondetFloat()
+	op := token.Token{Type: token.PLUS, Lexeme: "+", Line: 3}
+	utils.HadRuntimeError = false
+	var first, second interface{}
+	var want specResult
+	if side == 0 {
+		first = evaluateBinary(x, op, "a")
+		second = evaluateBinary(y, op, "b")
+		want = specBinary(y, token.PLUS, "b")
+	} else {
+		first = evaluateBinary("a", op, x)
+		second = evaluateBinary("b", op, y)
+		want = specBinary("b", token.PLUS, y)
+	}
+	_ = first
+	checkResult("bin-", second, want, hvCountStderr())
+}
